@@ -575,6 +575,12 @@ def _popped_level(ctx, rule):
     return c10.r18_popped_level_read_once(ctx, rule)
 
 
+def _model_unfiltered(ctx, rule):
+    # seed C10-o: CP cut down to the prefixes found in IP after loading - the level of a string no longer is what the files say
+    from . import c10
+    return c10.r19_loaded_model_unfiltered(ctx, rule)
+
+
 def _memo_key(ctx, rule):
     # seed C11-o: completions cached under the loop level instead of the level asked for
     from . import c10
@@ -586,7 +592,7 @@ def rules(tier):
             ('C11.R7', lambda c, r: c07.r3_record_layout(c, r, scope='omen')),
             ('C11.R8', lambda c, r: c07.r2_encoding_agreement(c, r, file_filter=lambda fid: fid[0] == 'Omen' and fid[-1] in
                                                                ('IP.level', 'CP.level', 'LN.level', 'alphabet.txt'), floor=6)),
-            ('C11.R9', _passes), ('C11.R10', r10_omen_loaders_complete), ('C11.R11', _cursor), ('C11.R12', _zero_budget), ('C11.R13', _no_shared_defaults), ('C11.R14', _window_slices), ('C11.R15', _popped_level), ('C11.R16', _memo_key)]
+            ('C11.R9', _passes), ('C11.R10', r10_omen_loaders_complete), ('C11.R11', _cursor), ('C11.R12', _zero_budget), ('C11.R13', _no_shared_defaults), ('C11.R14', _window_slices), ('C11.R15', _popped_level), ('C11.R16', _memo_key), ('C11.R17', _model_unfiltered)]
 
 
 META = {
